@@ -287,6 +287,70 @@ func cmdPairs(args []string) {
 			}
 		}
 	}
+	// (g) authorityInfoAccess locations of every host shape, on templates on which both AIA internal-name rules run
+	//     (a subscriber certificate in the TLS and in the S/MIME scope): access method x URL class
+	if only == "" || only == "planted-aia" {
+		var aiaT []*corpus.Obj
+		la, lb := byName["w_sub_cert_aia_contains_internal_names"], byName["w_smime_aia_contains_internal_names"]
+		ran := func(x int) bool { return x >= 3 && x <= 6 }
+		for _, o := range c.Certs {
+			if la == nil || lb == nil || len(aiaT) >= 2 {
+				break
+			}
+			if ran(execOne(la, fromObj(o), cfg).Obs) && ran(execOne(lb, fromObj(o), cfg).Obs) {
+				aiaT = append(aiaT, o)
+			}
+		}
+		if len(aiaT) == 0 && la != nil && lb != nil {
+			// none in the corpus: put an S/MIME policy identifier and an AIA extension on TLS subscriber certificates
+			for _, o := range c.Certs {
+				fc, err := forge.ParseCert(o.DER)
+				if err != nil || o.Cert.IsCA || fc.FindExt("2.5.29.32") == nil || len(aiaT) >= 2 {
+					continue
+				}
+				pol := forge.ExtValue(fc.FindExt("2.5.29.32"))
+				inner, err := forge.Parse(pol.Content)
+				if err != nil {
+					continue
+				}
+				inner.Children = append(inner.Children, forge.Cons(0x10, forge.OID(2, 23, 140, 1, 5, 1, 1)))
+				fc.SetExt("2.5.29.32", forge.MakeExt(forge.OID(2, 5, 29, 32), false, inner.Bytes()))
+				fc.SetExt("1.3.6.1.5.5.7.1.1", forge.MakeExt(forge.OID(1, 3, 6, 1, 5, 5, 7, 1, 1), false,
+					forge.Cons(0x10, forge.Cons(0x10, forge.OID(1, 3, 6, 1, 5, 5, 7, 48, 1), forge.GN(forge.GNURI, []byte("http://ocsp.example.com")))).Bytes()))
+				d := o.Cert.NotAfter.Sub(o.Cert.NotBefore)
+				fc.SetNotBefore(late)
+				fc.SetNotAfter(late.Add(d))
+				if cert, ok, _ := corpus.ParseCert(fc.Bytes()); ok {
+					t := &Target{Kind: "cert", ID: o.ID, DER: fc.Bytes(), Cert: cert}
+					if ran(execOne(la, t, cfg).Obs) && ran(execOne(lb, t, cfg).Obs) {
+						aiaT = append(aiaT, &corpus.Obj{ID: o.ID, Kind: "cert", DER: fc.Bytes(), Cert: cert})
+					}
+				}
+			}
+		}
+		urls := []string{"http://ocsp.example.com/", "http://ocsp.example.com:8080/x", "http://192.0.2.42/ocsp", "http://192.0.2.42:8080/ocsp", "http://[2001:db8::42]/ocsp",
+			"http://[2001:db8::42]:8080/ocsp", "http://host.internal/ca.crt", "http://host.internal:80/ca.crt", "http://localhost/", "http://10.1.2.3/", "ldap://dir.example.com/cn=ca",
+			"http://user:pw@ocsp.example.com/", "http://OCSP.EXAMPLE.COM/", "http://ocsp.example.notatld/", "http://ocsp.example.com./", "http:///nohost", "http://ex ample.com/", "//ocsp.example.com/x",
+			"http://[::1]/", "http://[fe80::1%25eth0]/", "http://ocsp.example.com:/", "http://1.2.3.4.5/", "https://xn--bcher-kva.example/"}
+		for _, o := range aiaT {
+			base, err := forge.ParseCert(o.DER)
+			if err != nil {
+				continue
+			}
+			for ui, u := range urls {
+				for mi, method := range [][]int{{1, 3, 6, 1, 5, 5, 7, 48, 1}, {1, 3, 6, 1, 5, 5, 7, 48, 2}} {
+					v := base.Clone()
+					good := forge.Cons(0x10, forge.OID(method...), forge.GN(forge.GNURI, []byte("http://good.example.com/")))
+					probe := forge.Cons(0x10, forge.OID(method...), forge.GN(forge.GNURI, []byte(u)))
+					v.SetExt("1.3.6.1.5.5.7.1.1", forge.MakeExt(forge.OID(1, 3, 6, 1, 5, 5, 7, 1, 1), false, forge.Cons(0x10, good, probe).Bytes()))
+					if cert, ok, _ := corpus.ParseCert(v.Bytes()); ok {
+						emit(&Target{Kind: "cert", ID: "planted-aia", DER: v.Bytes(), Cert: cert}, fmt.Sprintf("aia:%d:%d", ui, mi))
+						nforged++
+					}
+				}
+			}
+		}
+	}
 	_ = rng
 	n := w.N
 	w.Close()
